@@ -259,6 +259,34 @@ func calleeFunc(info *types.Info, call *ast.CallExpr) (*types.Func, bool) {
 func (fa facts) apply(info *types.Info, e Event) bool {
 	switch e.Kind {
 	case EvAssign:
+		// `var x T` without a value: x is the zero value (nil for channels, pointers, maps, slices, funcs, interfaces)
+		if e.Tok == token.DEFINE && len(e.Rhs) == 0 {
+			for _, l := range e.Lhs {
+				k := chainKey(l)
+				if k == "" || isVolatile(k) {
+					continue
+				}
+				fa.kill(k)
+				fa.killConds(k)
+				if tv, ok := info.Types[l]; ok || true {
+					var t types.Type
+					if ok {
+						t = tv.Type
+					} else if id, isID := l.(*ast.Ident); isID {
+						if o := info.ObjectOf(id); o != nil {
+							t = o.Type()
+						}
+					}
+					if t != nil {
+						switch t.Underlying().(type) {
+						case *types.Chan, *types.Pointer, *types.Map, *types.Slice, *types.Signature, *types.Interface:
+							fa[k] = "nil"
+						}
+					}
+				}
+			}
+			return true
+		}
 		for i, l := range e.Lhs {
 			k := chainKey(l)
 			if k == "" {
@@ -327,7 +355,30 @@ func (fa facts) apply(info *types.Info, e Event) bool {
 			return true
 		}
 		fa.killFields()
-	case EvRecv, EvSend, EvSelect, EvGo, EvDefer:
+	case EvSelect:
+		// a receive from (or send on) a channel known to be nil is never ready: that case cannot be taken
+		if cc, ok := e.Clause.(*ast.CommClause); ok && e.Taken && cc.Comm != nil {
+			var ch ast.Expr
+			switch c := cc.Comm.(type) {
+			case *ast.SendStmt:
+				ch = c.Chan
+			case *ast.ExprStmt:
+				if u, ok := ast.Unparen(c.X).(*ast.UnaryExpr); ok && u.Op == token.ARROW {
+					ch = u.X
+				}
+			case *ast.AssignStmt:
+				if len(c.Rhs) == 1 {
+					if u, ok := ast.Unparen(c.Rhs[0]).(*ast.UnaryExpr); ok && u.Op == token.ARROW {
+						ch = u.X
+					}
+				}
+			}
+			if k := chainKey(ch); ch != nil && k != "" && fa[k] == "nil" {
+				return false
+			}
+		}
+		fa.killFields()
+	case EvRecv, EvSend, EvGo, EvDefer:
 		fa.killFields()
 	case EvRange:
 		if rs, ok := e.Clause.(*ast.RangeStmt); ok {
